@@ -231,16 +231,32 @@ def _guard_shape(prog, eff, chk, A5):
         pass
 
     def cond_value(cond, val):
+        """Value of a condition of the guard in the state (flag == val, the transaction the
+        constructor began is still open).  sqlite3_get_autocommit() is 0 while a transaction is open."""
         c = strip(cond, explicit=True)
         if c.get('kind') == 'UnaryOperator' and c.get('opcode') == '!':
             return not cond_value(children(c)[0], val)
         if c.get('kind') == 'MemberExpr' and c.get('name') == flag:
             return val
+        if c.get('kind') == 'BinaryOperator' and c.get('opcode') in ('&&', '||'):
+            a_, b_ = children(c)
+            if c['opcode'] == '&&':
+                return bool(cond_value(a_, val)) and bool(cond_value(b_, val))
+            return bool(cond_value(a_, val)) or bool(cond_value(b_, val))
+        if c.get('kind') == 'CallExpr':
+            nm = (strip(children(c)[0]).get('referencedDecl') or {}).get('name')
+            if nm == 'sqlite3_get_autocommit':
+                return 0
+        lit = program.literal_value(c)
+        if lit is not None and isinstance(lit, (bool, int)):
+            return lit
         if c.get('kind') == 'BinaryOperator' and c.get('opcode') in ('==', '!='):
             a_, b_ = children(c)
             lv = program.literal_value(b_)
             if strip(a_, explicit=True).get('name') == flag and isinstance(lv, bool):
                 return (val == lv) if c['opcode'] == '==' else (val != lv)
+            x, y = cond_value(a_, val), cond_value(b_, val)
+            return (x == y) if c['opcode'] == '==' else (x != y)
         raise Unknown('condition %s' % locstr(cond))
 
     def events(f, node, val, out):
